@@ -504,6 +504,16 @@ fn block_json<'tcx>(
     };
     t.push(("line", J::n(root_line(tcx, tspan))));
     t.push(("exp", J::b(tspan.from_expansion())));
+    if tspan.from_expansion() {
+        // the macros this terminator was expanded from, innermost first (`panic,assert,debug_assert`)
+        let mut names: Vec<String> = Vec::new();
+        for e in tspan.macro_backtrace() {
+            if let rustc_span::ExpnKind::Macro(_, sym) = e.kind {
+                names.push(sym.to_string());
+            }
+        }
+        t.push(("mac", J::s(names.join(","))));
+    }
     J::obj(vec![
         ("stmts", J::Arr(stmts)),
         ("term", J::obj(t)),
